@@ -95,3 +95,6 @@ fn k_next_log_index() {
     let r = KTypes::next_log_index(id.as_ref());
     assert!(r == match id { Some(l) => l.1 + 1, None => 0 });
 }
+
+// NOTE (C12): a bounded round-trip harness over the real codec is not possible here: crc32fast's CPU feature detection executes
+// `cpuid` through inline assembly, which Kani 0.68 does not support (tried: `TerminatorKind::InlineAsm is not currently supported`).
